@@ -46,6 +46,16 @@ def _variants_for(prop: str) -> list[dict]:
                 continue
             if prop in props and (VERIF / "seeded" / sid / "patch.diff").exists():
                 out.append({"prop": prop, "kind": "fire", "name": f"seeded change {sid}", "patch": str(VERIF / "seeded" / sid / "patch.diff"), "expect": "", "source": "seeded"})
+    # behaviour-preserving refactorings written by independent agents (benign/): the check must not fire on any of them, and must stay silent (exit 0)
+    # wherever it was silent when benign/MATRIX.json was last generated ("undecided" is tolerated only where it was recorded)
+    bm = VERIF / "benign" / "MATRIX.json"
+    if bm.exists():
+        table = json.loads(bm.read_text())
+        for sid, row in sorted(table.items()):
+            verdict = row.get(prop, {}).get("verdict")
+            if verdict in ("silent", "undecided") and (VERIF / "benign" / sid / "patch.diff").exists():
+                out.append({"prop": prop, "kind": "silent", "name": f"benign refactoring {sid}", "patch": str(VERIF / "benign" / sid / "patch.diff"), "expect": "",
+                            "allow_undecided": verdict == "undecided", "source": "benign"})
     return out
 
 
@@ -98,7 +108,7 @@ def _run_one(v: dict) -> dict[str, Any]:
     if v["kind"] == "fire":
         ok = rc == 1 and (not v.get("expect") or any(r.startswith(v["expect"]) for r in rules))
     else:
-        ok = rc == 0
+        ok = rc == 0 or (rc == 2 and v.get("allow_undecided", False))
     return {"name": v["name"], "kind": v["kind"], "verdict": "ok" if ok else "MISBEHAVES", "rc": rc, "rules": rules[:4]}
 
 
